@@ -146,6 +146,8 @@ def plan(tier):
             for p in ALLP:
                 if p == "NLDrude2" and T != 2400:
                     continue        # the f'' form converges too slowly at low T (0.04 of the scale left at 144^2, 1200 K)
+                if p == "NLDrude2" and quick and m != "zoo2d_2":
+                    continue        # 70 CPU-s per case: quick keeps one
                 add(m, p, T, GRIDS[(2, T)])
         for m, ps in BUNDLED_2D:
             if second and m != "KaneMele_odd_Z":
@@ -169,8 +171,16 @@ def setup(tier, seed):
 
 def cases(tier, seed):
     pl = plan(tier)
-    # cheapest first
-    pl.sort(key=lambda x: (MODELS[x[0]]["dim"], x[4] ** MODELS[x[0]]["dim"]))
+
+    def cost(x):                      # ~ number of k-points x bands
+        spec = MODELS[x[0]]
+        return (x[3] ** spec["dim"] + x[4] ** spec["dim"]) * spec.get("nw", 2) * (8 if spec["kind"] == "kp" else 1)
+
+    # cheapest first, except that the few long cases (> 1/3 of the longest) are started first so that they do not
+    # form the tail of the run
+    pl.sort(key=cost)
+    cut = cost(pl[-1]) / 3
+    pl = [x for x in pl if cost(x) > cut][::-1] + [x for x in pl if cost(x) <= cut]
     for m, p, T, nc, nd in pl:
         yield {"model": m, "pair": p, "T": T, "NK": [nc, nd]}
 
